@@ -41,8 +41,17 @@ package persistence
 //@ prop C13
 //@ ensures[store-read-passthrough] ret0 == ret0(Load) && ret1 == ret1(Load) && arg(Load, 1) == key
 
+//@ func (*ticket).makeCipher
+//@ prop C13 C19 C02
+//@ ensures[a-cipher-or-an-error] (ret1 == nil ==> ret0 != nil) && (ret1 != nil ==> ret0 == nil)
+//@ ensures[the-gcm-cipher-of-the-secret] ret1 == nil ==> ret0 == ret0(NewGCMCipher) && ret1(NewGCMCipher) == nil
+//@ at call NewGCMCipher assert[keyed-with-the-tickets-secret] arg(NewGCMCipher, 0) == t.secret
+
 //@ func (*ticket).loadSession
-//@ prop C13 C01 C02 C12
+//@ safety
+//@ prop C13 C01 C02 C12 C19
+//@ ensures[a-stored-value-that-does-not-decode-is-an-error] called(DecodeSessionState) && ret1(DecodeSessionState) != nil ==> ret1 != nil && ret0 == nil
+//@     && !called(initLock)
 //@ ensures[loader-error-is-error] ret1(loader) != nil ==> ret1 != nil && ret0 == nil
 //@ ensures[session-only-from-authenticated-decode] ret0 != nil ==> ret1(loader) == nil && called(DecodeSessionState)
 //@     && ret1(DecodeSessionState) == nil && ret0 == ret0(DecodeSessionState) && arg(DecodeSessionState, 0) == ret0(loader)
